@@ -128,6 +128,10 @@ def memmem_scan_rule(rep, mod, rule='R-MEMMEM-SCAN'):
                 detail = 'loop bound has the wrong polarity'
         else:
             raise AnalysisBroken('igris_memmem: loop bound of unrecognised form')
+    if not ok and detail == 'loop bound not recognised':
+        # the bound is written in a form this rule does not follow; the content rules (c19_content R-MEMMEM-CONTENT) and the
+        # bounds obligations still decide the scan, so this is an analysis limit of the shape rule only
+        raise AnalysisBroken('igris_memmem: loop bound of the scan not recognised')
     rep.inst(rule, name, 'scan-reaches-last-fitting-position', ok, t.where(), detail)
     # result = cursor at the first memcmp == 0
     rets = f.returns()
@@ -204,6 +208,8 @@ def memmem_scan_rule(rep, mod, rule='R-MEMMEM-SCAN'):
         detail = None if ok else ('the value returned from the loop is %s and the return is %s by '
                                   'memcmp(cursor, s, s_len) == 0' % ('the cursor' if isc else 'not the cursor',
                                                                      'guarded' if guarded else 'not guarded'))
+    if not ok and not any(c.callee == 'memcmp' for c in f.calls()):
+        raise AnalysisBroken('igris_memmem: the match test is not a memcmp call (form not recognised by the shape rule)')
     rep.inst(rule, name, 'returns-cursor-of-first-full-match', ok, where, detail)
 
 
